@@ -1,6 +1,7 @@
 import Copia.Driver.C01
 import Copia.Driver.C02
 import Copia.Driver.C04
+import Copia.Driver.C12
 import Copia.Driver.C17
 import Copia.Driver.C18
 import Copia.Driver.C19
@@ -18,6 +19,7 @@ def dispatch (line : String) : String :=
     | "sig" :: _ | "delta" :: _ | "patch" :: _ => C01.handle toks
     | "bi" :: _ | "biplan" :: _ => C02.handle toks
     | "ow" :: _ => C04.handle toks
+    | "serve" :: _ | "safejoin" :: _ => C12.handle toks
     | "ck" :: _ => C17.handle toks
     | "glob" :: _ | "excl" :: _ | "plan" :: _ | "nt" :: _ | "parse" :: _ => C19.handle toks
     | "hdrenc" :: _ | "hdrdec" :: _ | "msgdec" :: _ | "msgenc" :: _ | "sigdec" :: _ | "sigenc" :: _
